@@ -5,6 +5,7 @@ package gen
 import (
 	"fmt"
 	"math/rand"
+	"strings"
 
 	"verif/oracle"
 )
@@ -167,6 +168,8 @@ type File struct {
 	Blocks []FBlock // includes empty members and the EOF marker, in file order
 	Flat   []byte
 	HasEOF bool
+	// MaxMember: one member is exactly MaxBlockSize bytes long.
+	MaxMember bool
 }
 
 // FileOpts steer RandFile.
@@ -175,6 +178,7 @@ type FileOpts struct {
 	SmallOnly  bool // keep blocks small (fast cases)
 	NoEmpty    bool
 	ExtraField bool // allow other extra subfields around BC
+	MaxMember  bool // allow a member of exactly MaxBlockSize bytes
 }
 
 // RandFile builds a BGZF file with an arbitrary layout: data blocks of sizes
@@ -187,9 +191,25 @@ func RandFile(rng *rand.Rand, o FileOpts) *File {
 	if !o.NoEmpty {
 		pEmpty = []int{0, 0, 10, 30}[rng.Intn(4)]
 	}
+	// One file in five (with MaxMember) has a member of
+	// exactly MaxBlockSize bytes, the largest the format allows (BSIZE 0xffff):
+	// the first data member is padded to it with an extra subfield.
+	padMax := o.MaxMember && rng.Intn(5) == 0
 	var add func(data []byte, opts oracle.MemberOpts)
 	add = func(data []byte, opts oracle.MemberOpts) {
 		m, err := oracle.EncodeMember(data, opts)
+		if err == nil && padMax && len(data) > 0 && len(opts.ExtraAfter) == 0 {
+			// (compress/gzip refuses header strings over 511 bytes, so the
+			// padding is an extra subfield after BC)
+			if pad := oracle.MaxBlockSize - len(m) - 4; pad >= 0 {
+				opts.ExtraAfter = oracle.Subfield('Z', 'W', []byte(strings.Repeat("x", pad)))
+				if m2, err2 := oracle.EncodeMember(data, opts); err2 == nil && len(m2) == oracle.MaxBlockSize {
+					m = m2
+					padMax = false
+					f.MaxMember = true
+				}
+			}
+		}
 		if err != nil {
 			// incompressible data that does not fit: halve it
 			add(data[:len(data)/2], opts)
